@@ -697,6 +697,19 @@ def pipeline_case(beh, sandbox):
         with open(os.path.join(d, nm + ".cmake"), "w") as fh:
             fh.write(FILE_BODY[kind].format(n=nm))
     out = os.path.join(sandbox, "out")
+    if beh["mode"] == "samename":
+        # every input is <proj>/dNN/mod.cmake: all of them are written to <out>/mod.rst, the last one written survives
+        inputs = []
+        for j, kind in enumerate(beh["files"], 1):
+            os.makedirs(os.path.join(d, "d%02d" % j))
+            inputs.append(os.path.join(d, "d%02d" % j, "mod.cmake"))
+            os.rename(os.path.join(d, names[j - 1] + ".cmake"), inputs[-1])
+        exc, _ = naming.run_main(["-o", out] + inputs, sandbox, home)
+        failed = exc is not None and not exc.startswith("SystemExit: 0") and not exc.startswith("SystemExit: None")
+        page = os.path.join(out, "mod.rst")
+        text = open(page, encoding="utf-8").read() if os.path.exists(page) else ""
+        written = sorted(j for j, n in enumerate(names, 1) if "doc of " + n in text)
+        return {"failed": failed, "written": written, "index": os.path.exists(os.path.join(out, "index.rst")), "exc": exc}
     if beh["mode"] == "directory":
         exc, _ = naming.run_main(["-o", out, d], sandbox, home)
     else:
@@ -738,10 +751,12 @@ def replay_pipeline(run, behs):
                     if faulty and (not obs["failed"] or any(j in obs["written"] for j in faulty)):
                         run.violation(case, {"failed": True, "no_page_for": faulty}, obs,
                                       "a run over a faulty file does not fail, or writes a page for the faulty file")
-                    elif not faulty and (obs["failed"] or obs["written"] != list(range(1, len(beh["files"]) + 1))):
+                    elif not faulty and (obs["failed"] or obs["written"] != (list(range(1, len(beh["files"]) + 1)) if beh["mode"] != "samename"
+                                                                             else [len(beh["files"])])):
                         run.violation(case, {"failed": False, "written": list(range(1, len(beh["files"]) + 1))}, obs,
                                       "a run over valid files fails or does not write every page")
-                    elif obs["written"] != sorted(beh["written"]) or obs["failed"] != (beh["status"] == "failed"):
+                    elif (obs["written"] != (sorted(beh["written"]) if beh["mode"] != "samename" else sorted(beh["written"])[-1:])
+                          or obs["failed"] != (beh["status"] == "failed")):
                         run.drifted({"pipeline": case, "model": {"written": beh["written"], "status": beh["status"]}, "observed": obs})
         if behs:
             run.sample({"pipeline_run": behs[len(behs) // 2]})
